@@ -336,6 +336,9 @@ pub fn run(seed: u64, n: usize, sink: &mut Sink) {
     witness_cases(&mut r, (n / 60).max(3), sink);
     let n_api = (n / 40).max(4);
     for t in 0..n_api { let mut rr = r.fork(); api_run(&mut rr, t, t % 2 == 1, sink); }
+    // the enforced limit comes from the network: braking points and speed profile that extend_path derives from
+    // the network, the train parameters and the route, against the end-to-end model (WholeSim.sl_prepare)
+    { let mut rf = r.fork(); crate::c11::full_walk_cases(&mut rf, 0, (n / 25).max(10), sink); }
     let per_run = 30;
     let n_runs = (n / (per_run + 4)).max(2);
     for t in 0..n_runs {
